@@ -784,3 +784,592 @@ Proof.
     rewrite map_map. reflexivity.
   - f_equal. unfold batches, dense_diag. rewrite chunks_map. reflexivity.
 Qed.
+
+Close Scope Qc_scope. Open Scope nat_scope.
+(* ================================================================= greedy loop = dense greedy *)
+Lemma bmask_all_false {A} (l : list A) m : existsb (fun x => x) m = false -> bmask l m = [].
+Proof. revert m. induction l as [|x l IH]; intros [|b m] H; try reflexivity.
+  cbn [existsb] in H. apply orb_false_iff in H. destruct H as [-> H]. cbn [bmask]. apply IH. exact H. Qed.
+
+Lemma bmask_map_filter {A B} (g : A -> B) (m : A -> bool) (l : list A) :
+  bmask (map g l) (map m l) = map g (filter m l).
+Proof. induction l as [|x l IH]; [reflexivity|]. cbn [map bmask filter]. destruct (m x); cbn [map]; rewrite IH; reflexivity. Qed.
+
+Lemma combine_nth_seq {A B} (a : list A) (b : list B) n da db : length a = n -> length b = n ->
+  combine a b = map (fun p => (nth p a da, nth p b db)) (seq 0 n).
+Proof. revert b n. induction a as [|x a IH]; intros [|y b] n Ha Hb; cbn [length] in *; subst n; try discriminate; [reflexivity|].
+  cbn [combine seq map nth]. f_equal. rewrite <- seq_shift, map_map. apply IH; [reflexivity | lia]. Qed.
+
+Section Fold.
+Variable K : list (list Qc).
+Variables bs n : nat.
+Variable obj : objective.
+Variables cmT dgT : list (list Qc).
+Variable t : nat.
+Variable s : gstate.
+Variable ssk0 : list (list (list Qc)).
+
+Notation cand := (nat * (Qc * (Qc * list Qc)))%type (only parsing).
+Definition Fobj (c : cand) : Qc * list Qc :=
+  let '(p, (dg, (cm, krow))) := c in obj dg cm (g_selcm s) krow (g_ssK s).
+Definition cmask_of (b : nat) (cases : list nat) : list bool :=
+  let m0 := map negb (nth b (g_mask s) []) in
+  if length cases <? bs then map2 andb m0 (map (fun p => p <? length cases) (seq 0 bs)) else m0.
+Definition prow (b : nat) (cases : list nat) : list (list Qc) :=
+  if negb (existsb (fun x => x) (cmask_of b cases)) then nth b ssk0 []
+  else if 0 <? t then assign_col (t - 1) (map (fun i => kent K i (g_last s)) cases) (nth b ssk0 [])
+       else nth b ssk0 [].
+Definition VC (e : nat * list nat) : list ((nat * cand) * Qc) :=
+  let (b, cases) := e in
+  map (fun c => ((b, c), fst (Fobj c))) (candidates bs cmT dgT t b (cmask_of b cases) (prow b cases)).
+Definition best_of (x : (nat * cand) * Qc) : Qc * nat * nat * list Qc :=
+  let '((b, c), v) := x in (v, b, fst c, snd (Fobj c)).
+
+Lemma batch_step_merge acc cur b cases : nth b cur [] = nth b ssk0 [] ->
+  batch_step K bs obj cmT dgT t s (option_map best_of acc, cur) (b, cases)
+  = (option_map best_of (merge_best acc (VC (b, cases))),
+     if negb (existsb (fun x => x) (cmask_of b cases)) then cur
+     else if 0 <? t then upd b (prow b cases) cur else cur).
+Proof.
+  intro Hrow. unfold batch_step. cbv zeta. fold (cmask_of b cases).
+  unfold VC, prow. destruct (negb (existsb (fun x => x) (cmask_of b cases))) eqn:Eany.
+  - (* no candidate: skipped *)
+    apply negb_true_iff in Eany. unfold candidates. rewrite (bmask_all_false _ _ Eany). cbn [map].
+    unfold merge_best. cbn [first_max]. destruct acc; reflexivity.
+  - set (cur' := if 0 <? t then upd b (assign_col (t - 1) (map (fun i => kent K i (g_last s)) cases) (nth b cur [])) cur else cur).
+    assert (Hr : nth b cur' [] = if 0 <? t then assign_col (t - 1) (map (fun i => kent K i (g_last s)) cases) (nth b ssk0 []) else nth b ssk0 []).
+    { unfold cur'. destruct (0 <? t); [|exact Hrow]. rewrite Hrow.
+      destruct (Nat.lt_ge_cases b (length cur)) as [Hl|Hl]; [apply nth_upd_same; exact Hl|].
+      (* out of range: the row is [] and assign_col on [] is [] *)
+      assert (E0 : nth b ssk0 [] = []) by (rewrite <- Hrow; apply nth_overflow; exact Hl).
+      rewrite E0. assert (Hu : upd b (assign_col (t - 1) (map (fun i => kent K i (g_last s)) cases) []) cur = cur).
+      { clear - Hl. revert b Hl. induction cur as [|x l IH]; intros b Hl; [destruct b; reflexivity|].
+        destruct b; [cbn [length] in Hl; lia|]. cbn [upd]. f_equal. apply IH. cbn [length] in Hl. lia. }
+      rewrite Hu, nth_overflow by exact Hl. destruct (map _ cases); reflexivity. }
+    rewrite Hr.
+    set (cands := candidates bs cmT dgT t b (cmask_of b cases)
+                   (if 0 <? t then assign_col (t - 1) (map (fun i => kent K i (g_last s)) cases) (nth b ssk0 []) else nth b ssk0 [])).
+    change (map (fun c : nat * (Qc * (Qc * list Qc)) => let '(_, (dg, (cm, krow))) := c in
+                  obj dg cm (g_selcm s) krow (g_ssK s)) cands) with (map Fobj cands).
+    assert (Hcomb : combine cands (map Fobj cands) = map (fun c => (c, Fobj c)) cands).
+    { clear. induction cands as [|c l IH]; [reflexivity|]. cbn [map combine]. rewrite IH. reflexivity. }
+    rewrite Hcomb, map_map.
+    pose proof (argmax_first_max (fun c => fst (Fobj c)) cands) as Hfm.
+    rewrite nth_error_map.
+    assert (Hcur : (if 0 <? t then upd b (if 0 <? t then assign_col (t - 1) (map (fun i => kent K i (g_last s)) cases) (nth b ssk0 []) else nth b ssk0 []) cur else cur) = cur').
+    { unfold cur'. destruct (0 <? t); [rewrite Hrow|]; reflexivity. }
+    rewrite Hcur.
+    unfold merge_best.
+    assert (Hfm2 : first_max (map (fun c => ((b, c), fst (Fobj c))) cands)
+                   = option_map (fun c => ((b, c), fst (Fobj c))) (nth_error cands (argmax (map (fun c => fst (Fobj c)) cands)))).
+    { generalize (argmax (map (fun c => fst (Fobj c)) cands)) Hfm. clear. intros am Hfm.
+      assert (G : forall l : list cand, first_max (map (fun c => ((b, c), fst (Fobj c))) l)
+                  = option_map (fun x : cand * Qc => ((b, fst x), snd x)) (first_max (map (fun c => (c, fst (Fobj c))) l))).
+      { induction l as [|c l IH]; [reflexivity|]. cbn [map first_max]. rewrite IH.
+        destruct (first_max (map (fun c0 => (c0, fst (Fobj c0))) l)) as [[c' v']|]; cbn [option_map snd fst]; [|reflexivity].
+        destruct (Qcltb (fst (Fobj c)) v'); reflexivity. }
+      rewrite G, <- Hfm. destruct (nth_error cands am); reflexivity. }
+    rewrite Hfm2.
+    destruct (nth_error cands (argmax (map (fun c => fst (Fobj c)) cands))) as [c|]; cbn [option_map].
+    + destruct (Fobj c) as [bv bw] eqn:EF. destruct acc as [[[b0 c0] v0]|]; cbn [option_map best_of comb snd fst].
+      * destruct (Qcltb v0 bv); cbn [option_map best_of]; rewrite ?EF; reflexivity.
+      * rewrite EF. reflexivity.
+    + destruct acc; reflexivity.
+Qed.
+
+Lemma fold_batches_merge rest : forall k acc cur,
+  (forall b, k <= b -> nth b cur [] = nth b ssk0 []) ->
+  exists cur',
+    fold_left (batch_step K bs obj cmT dgT t s) (enum_from k rest) (option_map best_of acc, cur)
+    = (option_map best_of (fold_left merge_best (map VC (enum_from k rest)) acc), cur')
+    /\ length cur' = length cur
+    /\ (forall b, k + length rest <= b -> nth b cur' [] = nth b cur [])
+    /\ (forall b, b < k -> nth b cur' [] = nth b cur [])
+    /\ (forall j cases, nth_error rest j = Some cases -> k + j < length cur -> nth (k + j) cur' [] = prow (k + j) cases).
+Proof.
+  induction rest as [|cases rest IH]; intros k acc cur Hrow.
+  - exists cur. cbn [enum_from length seq combine fold_left map]. repeat split; auto.
+    intros j cases Hj. destruct j; discriminate.
+  - rewrite enum_from_cons. cbn [fold_left map]. rewrite batch_step_merge by (apply Hrow; lia).
+    set (cur1 := if negb (existsb (fun x => x) (cmask_of k cases)) then cur
+                 else if 0 <? t then upd k (prow k cases) cur else cur).
+    assert (Hl1 : length cur1 = length cur).
+    { unfold cur1. destruct (negb _); [reflexivity|]. destruct (0 <? t); [apply upd_length | reflexivity]. }
+    assert (Ho1 : forall b, b <> k -> nth b cur1 [] = nth b cur []).
+    { intros b Hb. unfold cur1. destruct (negb _); [reflexivity|]. destruct (0 <? t); [|reflexivity].
+      apply nth_upd_other. lia. }
+    assert (Hk1 : k < length cur -> nth k cur1 [] = prow k cases).
+    { intro Hk. unfold cur1. destruct (negb (existsb (fun x => x) (cmask_of k cases))) eqn:E.
+      - unfold prow. rewrite E. apply Hrow. lia.
+      - destruct (0 <? t) eqn:Et; [apply nth_upd_same; exact Hk|].
+        unfold prow. rewrite E, Et. apply Hrow. lia. }
+    destruct (IH (S k) (merge_best acc (VC (k, cases))) cur1) as [cur' [E [L [A [Bf C]]]]].
+    { intros b Hb. rewrite Ho1 by lia. apply Hrow. lia. }
+    exists cur'. split; [exact E|]. split; [rewrite L; exact Hl1|]. split; [|split].
+    + intros b Hb. cbn [length] in Hb. rewrite A by lia. apply Ho1. lia.
+    + intros b Hb. rewrite Bf by lia. apply Ho1. lia.
+    + intros j cs Hj Hin. destruct j as [|j].
+      * cbn [nth_error] in Hj. injection Hj as <-. rewrite Nat.add_0_r in *. rewrite Bf by lia. apply Hk1. exact Hin.
+      * cbn [nth_error] in Hj. replace (k + S j) with (S k + j) in * by lia. apply C; [exact Hj | rewrite Hl1; exact Hin].
+Qed.
+End Fold.
+
+(* ---- structure of dataset.batch(bs) over range(n) *)
+Lemma firstn_seq' k s m : firstn k (seq s m) = seq s (Nat.min k m).
+Proof. revert s m. induction k as [|k IH]; intros s m; [reflexivity|].
+  destruct m; [reflexivity|]. cbn [seq firstn Nat.min]. f_equal. apply IH. Qed.
+Lemma skipn_seq' k s m : skipn k (seq s m) = seq (s + k) (m - k).
+Proof. revert s m. induction k as [|k IH]; intros s m; [rewrite Nat.add_0_r, Nat.sub_0_r; reflexivity|].
+  destruct m; [reflexivity|]. cbn [seq skipn Nat.sub]. rewrite IH. f_equal. lia. Qed.
+
+Lemma chunks_seq_enum bs : 1 <= bs -> forall m s k b cases,
+  In (b, cases) (enum_from k (chunks bs (seq s m))) ->
+  exists j, b = k + j /\ cases = seq (s + j * bs) (length cases) /\ 1 <= length cases <= bs /\ j * bs + length cases <= m.
+Proof.
+  intro Hbs. induction m as [m IH] using lt_wf_ind. intros s k b cases Hin.
+  destruct m as [|m]; [destruct Hin|].
+  rewrite chunks_cons_step in Hin by (auto; discriminate). rewrite enum_from_cons in Hin.
+  rewrite firstn_seq', skipn_seq' in Hin. destruct Hin as [E|Hin].
+  - injection E as <- <-. exists 0. rewrite seq_length. repeat split; try lia. f_equal. lia.
+  - apply IH in Hin; [|lia]. destruct Hin as [j [-> [Hc [Hl Hm]]]].
+    exists (S j). rewrite Nat.mul_succ_l. repeat split; try lia. rewrite Hc at 1. f_equal. lia.
+Qed.
+
+Lemma map_snd_enum_from {A} k (l : list A) : map snd (enum_from k l) = l.
+Proof. revert k. induction l as [|x l IH]; intro k; [reflexivity|]. rewrite enum_from_cons. cbn [map snd]. rewrite IH. reflexivity. Qed.
+Lemma in_enum_from_lt {A} k (l : list A) b x : In (b, x) (enum_from k l) -> k <= b < k + length l.
+Proof. revert k. induction l as [|y l IH]; intros k H; [destruct H|]. rewrite enum_from_cons in H.
+  destruct H as [E|H]; [injection E as <- _; cbn [length]; lia|]. apply IH in H. cbn [length]. lia. Qed.
+
+(* ---- padded tables: lookup and row lengths *)
+Lemma nthq_pad bs v p : nthq (pad bs v) p = nthq v p.
+Proof. unfold nthq, pad. destruct (Nat.lt_ge_cases p (length v)) as [H|H].
+  - apply app_nth1. exact H.
+  - rewrite app_nth2 by exact H. rewrite (nth_overflow v) by exact H.
+    generalize (p - length v). generalize (bs - length v). intros a c. revert c.
+    induction a as [|a IH]; intros [|c]; cbn [repeat nth]; auto. Qed.
+Lemma nth_pad_last bs t b : nth b (pad_last bs t) [] = nth b t [] \/ nth b (pad_last bs t) [] = pad bs (nth b t []).
+Proof. revert b. induction t as [|x t IH]; intro b; [left; reflexivity|].
+  destruct t as [|y t].
+  - destruct b as [|b]; [right; reflexivity | left; destruct b; reflexivity].
+  - change (pad_last bs (x :: y :: t)) with (x :: pad_last bs (y :: t)).
+    destruct b as [|b]; [left; reflexivity|]. cbn [nth]. apply IH. Qed.
+Lemma table_lookup bs v b p : 1 <= bs -> p < bs -> nthq (nth b (table_of bs v) []) p = nthq v (b * bs + p).
+Proof. intros Hbs Hp. unfold table_of.
+  destruct (nth_pad_last bs (chunks bs v) b) as [E|E]; rewrite E; [|rewrite nthq_pad];
+    unfold nthq; apply nth_chunks; assumption. Qed.
+Lemma pad_last_length bs t : length (pad_last bs t) = length t.
+Proof. induction t as [|x t IH]; [reflexivity|]. destruct t; [reflexivity|].
+  change (pad_last bs (x :: l :: t)) with (x :: pad_last bs (l :: t)). cbn [length] in *. rewrite IH. reflexivity. Qed.
+Lemma table_of_rows bs (v : list Qc) : 1 <= bs -> Forall (fun r => length r = bs) (table_of bs v).
+Proof.
+  intro Hbs. unfold table_of. pattern v. apply (chunks_ind _ bs Hbs); clear v.
+  - constructor.
+  - intros v Hv IH. rewrite chunks_cons_step by assumption.
+    destruct (skipn bs v) as [|y r] eqn:Es.
+    + rewrite chunks_nil. cbn [pad_last]. constructor; [|constructor].
+      unfold pad. rewrite app_length, repeat_length, firstn_length. lia.
+    + rewrite chunks_cons_step in * by (auto; discriminate).
+      match goal with |- Forall _ (pad_last bs (?a :: ?b :: ?c)) => change (pad_last bs (a :: b :: c)) with (a :: pad_last bs (b :: c)) end.
+      constructor; [|exact IH]. rewrite firstn_length.
+      assert (length (skipn bs v) = length (y :: r)) by (rewrite Es; reflexivity).
+      rewrite skipn_length in H. cbn [length] in H. lia.
+Qed.
+
+Lemma zip4 (dg cm : list Qc) (rows : list (list Qc)) : forall k, length dg = length cm -> length cm = length rows ->
+  combine (seq k (length dg)) (combine dg (combine cm rows))
+  = map (fun j => (k + j, (nthq dg j, (nthq cm j, nth j rows [])))) (seq 0 (length dg)).
+Proof.
+  revert cm rows. induction dg as [|x dg IH]; intros [|y cm] [|r rows] k H1 H2; cbn [length] in *; try discriminate; [reflexivity|].
+  cbn [seq combine map]. unfold nthq at 1 2. cbn [nth]. rewrite Nat.add_0_r. f_equal.
+  rewrite (IH cm rows (S k)) by lia. rewrite <- seq_shift, map_map. apply map_ext. intro j.
+  unfold nthq. cbn [nth]. f_equal. lia.
+Qed.
+
+Lemma nth_assign_col j vals rows p : p < length vals -> p < length rows ->
+  nth p (assign_col j vals rows) [] = upd j (nthq vals p) (nth p rows []).
+Proof. revert rows p. induction vals as [|v vals IH]; intros [|r rows] p H1 H2; cbn [length] in *; try lia.
+  destruct p; cbn [assign_col nth]; [reflexivity|]. unfold nthq. cbn [nth]. apply IH; lia. Qed.
+Lemma assign_col_length j vals rows : length (assign_col j vals rows) = length rows.
+Proof. revert rows. induction vals as [|v vals IH]; intros [|r rows]; cbn [assign_col length]; auto. Qed.
+Lemma firstn_upd_last {A} j (v : A) r : j < length r -> firstn (S j) (upd j v r) = firstn j r ++ [v].
+Proof. revert j. induction r as [|x r IH]; intros [|j] H; cbn [length] in *; try lia; [reflexivity|].
+  cbn [upd firstn app]. f_equal. apply IH. lia. Qed.
+Lemma filter_map_comm {A B} (h : A -> B) (f : B -> bool) l : filter f (map h l) = map h (filter (fun x => f (h x)) l).
+Proof. induction l as [|x l IH]; [reflexivity|]. cbn [map filter]. destruct (f (h x)); cbn [map]; rewrite IH; reflexivity. Qed.
+Lemma seq_as_map k m : seq k m = map (fun p => k + p) (seq 0 m).
+Proof. apply seq_shift_map. Qed.
+
+
+Lemma first_max_proj {A B} (h : A -> B) (l : list (A * Qc)) :
+  first_max (map (fun x => (h (fst x), snd x)) l) = option_map (fun x => (h (fst x), snd x)) (first_max l).
+Proof. induction l as [|x l IH]; [reflexivity|]. cbn [map first_max]. rewrite IH.
+  destruct (first_max l) as [y|]; cbn [option_map snd]; [|reflexivity]. destruct (Qcltb (snd x) (snd y)); reflexivity. Qed.
+
+Lemma first_max_in {A} (l : list (A * Qc)) x : first_max l = Some x -> In x l.
+Proof. intro H. apply first_max_spec in H. destruct H as [l1 [l2 [-> _]]]. apply in_or_app. right. left. reflexivity. Qed.
+
+Lemma in_enum_from_nth {A} k (l : list A) b x : In (b, x) (enum_from k l) <-> k <= b /\ nth_error l (b - k) = Some x.
+Proof. revert k. induction l as [|y l IH]; intro k.
+  - split; [intros [] | intros [_ H]; destruct (b - k); discriminate].
+  - rewrite enum_from_cons. split.
+    + intros [E|H]; [injection E as <- <-; rewrite Nat.sub_diag; split; [lia | reflexivity]|].
+      apply IH in H. destruct H as [Hk H]. split; [lia|]. replace (b - k) with (Datatypes.S (b - Datatypes.S k)) by lia. exact H.
+    + intros [Hk H]. destruct (Nat.eq_dec b k) as [->|Hne].
+      * rewrite Nat.sub_diag in H. injection H as <-. left. reflexivity.
+      * right. apply IH. split; [lia|]. replace (b - k) with (Datatypes.S (b - Datatypes.S k)) in H by lia. exact H.
+Qed.
+
+Lemma upd_overflow {A} i (v : A) l : length l <= i -> upd i v l = l.
+Proof. revert i. induction l as [|x l IH]; intros i H; [destruct i; reflexivity|].
+  destruct i; [cbn [length] in H; lia|]. cbn [upd]. f_equal. apply IH. cbn [length] in H. lia. Qed.
+
+Lemma mask_at_upd2_other m b p b' p' : (b, p) <> (b', p') -> mask_at (upd2 b p true m) b' p' = mask_at m b' p'.
+Proof. intro H. unfold mask_at, upd2. destruct (Nat.eq_dec b b') as [<-|Hb].
+  - destruct (Nat.lt_ge_cases b (length m)) as [Hl|Hl].
+    + rewrite nth_upd_same by exact Hl. apply nth_upd_other. intro E. apply H. subst. reflexivity.
+    + rewrite upd_overflow by exact Hl. reflexivity.
+  - rewrite nth_upd_other by exact Hb. reflexivity. Qed.
+
+Definition unsel (S : list nat) (i : nat) : bool := negb (existsb (Nat.eqb i) S).
+
+Section Step.
+Variable K : list (list Qc).
+Variables bs n np : nat.
+Variable obj : objective.
+Variable updw : weight_update.
+Hypothesis Hbs : 1 <= bs.
+Hypothesis Hsym : symmetric K n.
+Let cmT := col_means_table K bs n.
+Let dgT := diag_table K bs n.
+Let nb := length (batches bs n).
+
+Record inv (s : gstate) (S : list nat) : Prop := {
+  i_sel : map (flat_idx bs) (g_sel s) = S;
+  i_lt : forall i, In i S -> i < n;
+  i_mask_rows : forall b, b < nb -> length (nth b (g_mask s) []) = bs;
+  i_mask_len : length (g_mask s) = nb;
+  i_mask : forall b p, p < bs -> mask_at (g_mask s) b p = existsb (Nat.eqb (b * bs + p)) S;
+  i_selcm : g_selcm s = map (colmean K n) S;
+  i_ssK : g_ssK s = submat K S;
+  i_last : S <> [] -> g_last s = last S 0;
+  i_ssk_len : length (g_ssk s) = nb;
+  i_ssk_rows : forall b, b < nb -> length (nth b (g_ssk s) []) = bs;
+  i_ssk_cells : forall b p, b < nb -> p < bs -> length (nth p (nth b (g_ssk s) []) []) = np;
+  i_ssk : forall b cases, In (b, cases) (enum (batches bs n)) -> (exists i, In i cases /\ unsel S i = true) ->
+          forall p, p < length cases ->
+          firstn (length S - 1) (nth p (nth b (g_ssk s) []) [])
+          = map (fun x => kent K (b * bs + p) x) (firstn (length S - 1) S)
+}.
+
+Definition mk (S : list nat) (b i : nat) : nat * (Qc * (Qc * list Qc)) :=
+  (i - b * bs, (kent K i i, (colmean K n i, map (fun x => kent K i x) S))).
+
+Lemma batch_facts b cases : In (b, cases) (enum (batches bs n)) ->
+  cases = seq (b * bs) (length cases) /\ 1 <= length cases <= bs /\ b * bs + length cases <= n /\ b < nb.
+Proof. intro H. pose proof (in_enum_from_lt 0 _ _ _ H) as Hb.
+  destruct (chunks_seq_enum bs Hbs n 0 0 b cases H) as [j [-> [Hc [Hl Hn]]]]. cbn [plus] in *.
+  split; [exact Hc|]. split; [lia|]. split; [lia|]. unfold nb. unfold batches in *. lia. Qed.
+
+Lemma tables_are_dense :
+  cmT = table_of bs (dense_col_means K n) /\ dgT = table_of bs (dense_diag K n).
+Proof. apply colmeans_triangular; assumption. Qed.
+
+Lemma table_len (f : nat -> Qc) b : b < nb -> length (nth b (table_of bs (map f (seq 0 n))) []) = bs.
+Proof. intro Hb. pose proof (table_of_rows bs (map f (seq 0 n)) Hbs) as F.
+  rewrite Forall_nth in F. apply F. unfold table_of. rewrite pad_last_length, chunks_map, map_length. exact Hb. Qed.
+
+(* the candidates of one batch, read from the padded tables, are the unselected cases of the batch with their
+   dense data *)
+Lemma batch_candidates s S b cases : inv s S -> length S <= np -> In (b, cases) (enum (batches bs n)) ->
+  candidates bs cmT dgT (length S) b (cmask_of bs s b cases) (prow K bs (length S) s (g_ssk s) b cases)
+  = map (mk S b) (filter (unsel S) cases).
+Proof.
+  intros I Hnp Hin. destruct (batch_facts b cases Hin) as [Hc [[Hl1 Hl2] [Hn Hb]]].
+  destruct tables_are_dense as [Ecm Edg].
+  set (len := length cases) in *. set (t := length S).
+  set (row := nth b (g_mask s) []).
+  assert (Hrow : length row = bs) by (apply (i_mask_rows s S I); exact Hb).
+  (* the candidate mask as a function of the position *)
+  set (mfun := fun p => negb (nth p row false) && (p <? len)).
+  assert (Hmask : cmask_of bs s b cases = map mfun (seq 0 bs)).
+  { unfold cmask_of. fold row. fold len. rewrite (list_as_seq row false), Hrow, map_map.
+    destruct (len <? bs) eqn:E.
+    - rewrite map2_seq. reflexivity.
+    - apply map_ext_in. intros p Hp. apply in_seq in Hp. unfold mfun.
+      apply Nat.ltb_ge in E. assert (E2 : (p <? len) = true) by (apply Nat.ltb_lt; lia). rewrite E2, andb_true_r.
+      reflexivity. }
+  assert (Hmf : forall p, p < len -> mfun p = unsel S (b * bs + p)).
+  { intros p Hp. unfold mfun, unsel. assert (E2 : (p <? len) = true) by (apply Nat.ltb_lt; lia).
+    rewrite E2, andb_true_r. f_equal. apply (i_mask s S I). lia. }
+  set (pr := prow K bs t s (g_ssk s) b cases).
+  assert (Hprl : length pr = bs).
+  { unfold pr, prow. destruct (negb _); [apply (i_ssk_rows s S I); exact Hb|].
+    destruct (0 <? t); [rewrite assign_col_length|]; apply (i_ssk_rows s S I); exact Hb. }
+  unfold candidates. fold pr.
+  assert (Hld : length (nth b dgT []) = bs) by (rewrite Edg; apply table_len; exact Hb).
+  assert (Hlc : length (nth b cmT []) = bs) by (rewrite Ecm; apply table_len; exact Hb).
+  rewrite <- Hld at 1. rewrite zip4 by (rewrite ?map_length; lia). rewrite Hld, Hmask, bmask_map_filter.
+  (* positions beyond the batch are masked *)
+  assert (Hf : filter mfun (seq 0 bs) = filter mfun (seq 0 len)).
+  { replace bs with (len + (bs - len)) at 1 by lia. rewrite seq_app, filter_app.
+    assert (E : filter mfun (seq (0 + len) (bs - len)) = []).
+    { generalize (bs - len). intro k. cbn [plus].
+      assert (G : forall k a, len <= a -> filter mfun (seq a k) = []).
+      { clear. induction k as [|k IHk]; intros a Ha; [reflexivity|]. cbn [seq filter]. unfold mfun at 1.
+        assert (E : (a <? len) = false) by (apply Nat.ltb_ge; exact Ha). rewrite E, andb_false_r. apply IHk. lia. }
+      apply G. lia. }
+    rewrite E, app_nil_r. reflexivity. }
+  rewrite Hf, (filter_ext_in mfun (fun p => unsel S (b * bs + p))) by (intros p Hp; apply in_seq in Hp; apply Hmf; lia).
+  replace (filter (unsel S) cases) with (filter (unsel S) (seq (b * bs) len)) by (rewrite <- Hc; reflexivity).
+  rewrite (seq_as_map (b * bs) len), filter_map_comm, map_map.
+  apply map_ext_in. intros p Hp. apply filter_In in Hp. destruct Hp as [Hp Hu]. apply in_seq in Hp.
+  unfold mk. cbn [plus]. replace (b * bs + p - b * bs) with p by lia.
+  assert (Hi : b * bs + p < n) by lia.
+  f_equal. f_equal; [|f_equal].
+  - rewrite Edg, table_lookup by (auto; lia). unfold dense_diag, nthq. rewrite nth_map_seq by exact Hi. reflexivity.
+  - rewrite Ecm, table_lookup by (auto; lia). unfold dense_col_means, nthq. rewrite nth_map_seq by exact Hi. reflexivity.
+  - (* the kernel row to the selection *)
+    rewrite (nth_indep _ [] (firstn t [])) by (rewrite map_length, Hprl; lia). rewrite map_nth.
+    assert (Hany : existsb (fun x => x) (cmask_of bs s b cases) = true).
+    { rewrite Hmask. apply existsb_exists. exists true. split; [|reflexivity].
+      apply in_map_iff. exists p. split; [rewrite Hmf by lia; exact Hu | apply in_seq; lia]. }
+    unfold pr, prow. rewrite Hany. cbn [negb].
+    destruct (Nat.eq_dec t 0) as [Ht|Ht].
+    + assert (S = []) by (destruct S; [reflexivity | discriminate]). subst S. rewrite Ht. reflexivity.
+    + assert (Et : (0 <? t) = true) by (apply Nat.ltb_lt; lia). rewrite Et.
+      rewrite nth_assign_col by (rewrite ?map_length, ?(i_ssk_rows s S I b Hb); fold len; lia).
+      replace t with (Datatypes.S (t - 1)) at 1 by lia.
+      rewrite firstn_upd_last by (rewrite (i_ssk_cells s S I b p Hb) by lia; lia).
+      rewrite (i_ssk s S I b cases Hin) by (first [fold len; lia | exists (b * bs + p); split; [rewrite Hc; apply in_seq; lia | exact Hu]]).
+      fold t. unfold nthq. rewrite (nth_indep _ 0%Qc (kent K 0 (g_last s))) by (rewrite map_length; fold len; lia).
+      rewrite (map_nth (fun i => kent K i (g_last s))). rewrite Hc, seq_nth by lia.
+      rewrite (i_last s S I) by (intro E; subst S; cbn in Ht; lia).
+      assert (HS : S = firstn (t - 1) S ++ [last S 0]).
+      { clear - Ht. unfold t in *. destruct (exists_last (l := S)) as [l' [a E]]; [intro E; subst; cbn in Ht; lia|].
+        rewrite E, last_last, app_length. cbn [length]. replace (length l' + 1 - 1) with (length l') by lia.
+        rewrite firstn_app, Nat.sub_diag, firstn_all. cbn [firstn]. rewrite app_nil_r. reflexivity. }
+      rewrite HS at 3. rewrite map_app. reflexivity.
+Qed.
+
+Lemma prow_length s S b cases : inv s S -> In (b, cases) (enum (batches bs n)) ->
+  length (prow K bs (length S) s (g_ssk s) b cases) = bs.
+Proof. intros I Hin. destruct (batch_facts b cases Hin) as [_ [_ [_ Hb]]]. unfold prow.
+  destruct (negb _); [apply (i_ssk_rows s S I); exact Hb|].
+  destruct (0 <? length S); [rewrite assign_col_length|]; apply (i_ssk_rows s S I); exact Hb. Qed.
+
+Lemma assign_col_cell_length j vals rows p : length (nth p (assign_col j vals rows) []) = length (nth p rows []).
+Proof. revert rows p. induction vals as [|v vals IH]; intros [|r rows] p; try reflexivity.
+  destruct p; cbn [assign_col nth]; [apply upd_length | apply IH]. Qed.
+
+Lemma prow_cell_length s S b cases p : inv s S -> In (b, cases) (enum (batches bs n)) -> p < bs ->
+  length (nth p (prow K bs (length S) s (g_ssk s) b cases) []) = np.
+Proof. intros I Hin Hp. destruct (batch_facts b cases Hin) as [_ [_ [_ Hb]]]. unfold prow.
+  destruct (negb _); [apply (i_ssk_cells s S I); assumption|].
+  destruct (0 <? length S); [rewrite assign_col_cell_length|]; apply (i_ssk_cells s S I); assumption. Qed.
+
+(* in a batch that still has a candidate, every stored kernel row to the selection is the dense one *)
+Lemma prow_cells s S b cases : inv s S -> length S <= np -> In (b, cases) (enum (batches bs n)) ->
+  (exists i, In i cases /\ unsel S i = true) -> forall p, p < length cases ->
+  firstn (length S) (nth p (prow K bs (length S) s (g_ssk s) b cases) []) = map (fun x => kent K (b * bs + p) x) S.
+Proof.
+  intros I Hnp Hin Hex p Hp. destruct (batch_facts b cases Hin) as [Hc [[Hl1 Hl2] [Hn Hb]]].
+  set (len := length cases) in *. set (t := length S).
+  assert (Hany : existsb (fun x => x) (cmask_of bs s b cases) = true).
+  { destruct Hex as [i [Hi Hu]]. rewrite Hc in Hi. apply in_seq in Hi.
+    apply existsb_exists. exists true. split; [|reflexivity]. unfold cmask_of. fold len.
+    set (row := nth b (g_mask s) []).
+    assert (Hrow : length row = bs) by (apply (i_mask_rows s S I); exact Hb).
+    assert (Hq : nth (i - b * bs) row false = false).
+    { pose proof (i_mask s S I b (i - b * bs)) as Hm. unfold mask_at in Hm. fold row in Hm. rewrite Hm by lia.
+      replace (b * bs + (i - b * bs)) with i by lia. unfold unsel in Hu. apply negb_true_iff in Hu. exact Hu. }
+    assert (Hin1 : In true (map negb row)).
+    { apply in_map_iff. exists false. split; [reflexivity|]. rewrite <- Hq. apply nth_In. lia. }
+    destruct (len <? bs) eqn:E; [|exact Hin1].
+    rewrite (list_as_seq row false), Hrow, map_map, map2_seq. apply in_map_iff. exists (i - b * bs).
+    split; [|apply in_seq; lia]. rewrite Hq. cbn [negb andb]. apply Nat.ltb_lt. lia. }
+  unfold prow. rewrite Hany. cbn [negb].
+  destruct (Nat.eq_dec t 0) as [Ht|Ht].
+  - assert (S = []) by (destruct S; [reflexivity | discriminate]). subst S. reflexivity.
+  - assert (Et : (0 <? t) = true) by (apply Nat.ltb_lt; lia). fold t. rewrite Et.
+    rewrite nth_assign_col by (rewrite ?map_length, ?(i_ssk_rows s S I b Hb); fold len; lia).
+    replace t with (Datatypes.S (t - 1)) at 1 by lia.
+    rewrite firstn_upd_last by (rewrite (i_ssk_cells s S I b p Hb) by lia; lia).
+    rewrite (i_ssk s S I b cases Hin Hex) by (fold len; lia).
+    fold t. unfold nthq. rewrite (nth_indep _ 0%Qc (kent K 0 (g_last s))) by (rewrite map_length; fold len; lia).
+    rewrite (map_nth (fun i => kent K i (g_last s))). rewrite Hc, seq_nth by lia.
+    rewrite (i_last s S I) by (intro E; subst S; cbn in Ht; lia).
+    assert (HS : S = firstn (t - 1) S ++ [last S 0]).
+    { clear - Ht. unfold t in *. destruct (exists_last (l := S)) as [l' [a E]]; [intro E; subst; cbn in Ht; lia|].
+      rewrite E, last_last, app_length. cbn [length]. replace (length l' + 1 - 1) with (length l') by lia.
+      rewrite firstn_app, Nat.sub_diag, firstn_all. cbn [firstn]. rewrite app_nil_r. reflexivity. }
+    rewrite HS at 3. rewrite map_app. reflexivity.
+Qed.
+
+Definition vi (S : list nat) (i : nat) : nat * Qc := (i, fst (dense_value obj K n S i)).
+Definition proj (x : (nat * (nat * (Qc * (Qc * list Qc)))) * Qc) : nat * Qc :=
+  (fst (fst x) * bs + fst (snd (fst x)), snd x).
+
+Lemma VC_dense s S e : inv s S -> length S <= np -> In e (enum (batches bs n)) ->
+  VC K bs obj cmT dgT (length S) s (g_ssk s) e
+  = map (fun i => ((fst e, mk S (fst e) i), fst (dense_value obj K n S i))) (filter (unsel S) (snd e)).
+Proof.
+  intros I Hnp Hin. destruct e as [b cases]. unfold VC. cbn [fst snd].
+  rewrite (batch_candidates s S b cases I Hnp Hin), map_map. apply map_ext. intro i.
+  unfold Fobj, mk, dense_value. rewrite (i_selcm s S I), (i_ssK s S I). reflexivity.
+Qed.
+
+Lemma dense_first_max s S : inv s S -> length S <= np ->
+  first_max (map (vi S) (dense_candidates n S))
+  = option_map proj (first_max (concat (map (VC K bs obj cmT dgT (length S) s (g_ssk s)) (enum (batches bs n))))).
+Proof.
+  intros I Hnp. unfold proj. rewrite <- (first_max_proj (fun a => fst a * bs + fst (snd a))).
+  f_equal. rewrite concat_map, map_map.
+  assert (Hd : dense_candidates n S = filter (unsel S) (concat (batches bs n))).
+  { unfold batches. rewrite concat_chunks by exact Hbs. reflexivity. }
+  rewrite Hd, <- concat_filter_map, concat_map, map_map.
+  rewrite <- (map_snd_enum_from 0 (batches bs n)) at 1. rewrite map_map. f_equal.
+  apply map_ext_in. intros [b cases] Hin. change (enum_from 0 (batches bs n)) with (enum (batches bs n)) in Hin.
+  rewrite (VC_dense s S (b, cases) I Hnp Hin), map_map. cbn [fst snd].
+  apply map_ext_in. intros i Hi. apply filter_In in Hi. destruct Hi as [Hi _].
+  destruct (batch_facts b cases Hin) as [Hc _]. rewrite Hc in Hi. apply in_seq in Hi.
+  unfold vi, mk. cbn [fst snd]. f_equal. lia.
+Qed.
+
+Lemma enum_nth b cases : In (b, cases) (enum (batches bs n)) <-> nth_error (batches bs n) b = Some cases.
+Proof. unfold enum. change (combine (seq 0 (length (batches bs n))) (batches bs n)) with (enum_from 0 (batches bs n)).
+  rewrite in_enum_from_nth, Nat.sub_0_r. split; [intros [_ H]; exact H | intro H; split; [lia | exact H]]. Qed.
+
+(* one greedy step of the batched model = one step of the dense greedy, and the invariant is preserved *)
+Lemma select_step_dense s S : inv s S -> length S <= np ->
+  inv (select_step K bs n obj updw cmT dgT s) (dense_step obj K n S).
+Proof.
+  intros I Hnp. unfold select_step, dense_step.
+  destruct (fold_batches_merge K bs obj cmT dgT (length S) s (g_ssk s) (batches bs n) 0 None (g_ssk s))
+    as [cur' [E [L [_ [_ C]]]]]; [reflexivity|].
+  change (enum_from 0 (batches bs n)) with (enum (batches bs n)) in E.
+  assert (Elen : length (g_sel s) = length S) by (rewrite <- (i_sel s S I), map_length; reflexivity).
+  rewrite Elen. cbn [option_map] in E. rewrite E. rewrite batched_first_max.
+  pose proof (dense_first_max s S I Hnp) as Hd. unfold vi in Hd. rewrite Hd.
+  destruct (first_max (concat (map (VC K bs obj cmT dgT (length S) s (g_ssk s)) (enum (batches bs n))))) as [[[bb c] v]|] eqn:Efm;
+    cbn [option_map proj best_of fst snd]; [|exact I].
+  (* the chosen candidate *)
+  pose proof (first_max_in _ _ Efm) as Hin. apply in_concat in Hin. destruct Hin as [l [Hl Hx]].
+  apply in_map_iff in Hl. destruct Hl as [[b cases] [<- He]].
+  rewrite (VC_dense s S (b, cases) I Hnp He) in Hx. cbn [fst snd] in Hx.
+  apply in_map_iff in Hx. destruct Hx as [i [Ex Hi]]. injection Ex as <- <- <-.
+  apply filter_In in Hi. destruct Hi as [Hi Hu].
+  destruct (batch_facts b cases He) as [Hc [[Hl1 Hl2] [Hn Hb]]].
+  pose proof Hi as Hi'. rewrite Hc in Hi'. apply in_seq in Hi'.
+  set (p := i - b * bs). assert (Hp : p < length cases) by (unfold p; lia).
+  assert (Hflat : b * bs + p = i) by (unfold p; lia).
+  unfold mk. cbn [fst snd]. fold p. rewrite Hflat.
+  destruct tables_are_dense as [Ecm Edg]. fold cmT dgT in Ecm, Edg.
+  assert (Hrowb : nth b cur' [] = prow K bs (length S) s (g_ssk s) b cases).
+  { apply (C b cases); [apply enum_nth; exact He | rewrite (i_ssk_len s S I); exact Hb]. }
+  assert (Hrows : forall b' cases', In (b', cases') (enum (batches bs n)) ->
+                  nth b' cur' [] = prow K bs (length S) s (g_ssk s) b' cases').
+  { intros b' cases' He'. destruct (batch_facts b' cases' He') as [_ [_ [_ Hb']]].
+    apply (C b' cases'); [apply enum_nth; exact He' | rewrite (i_ssk_len s S I); exact Hb']. }
+  assert (Hex : exists i0, In i0 cases /\ unsel S i0 = true) by (exists i; split; assumption).
+  assert (Hnew : firstn (length S) (nth p (nth b cur' []) []) = map (fun x => kent K i x) S).
+  { rewrite Hrowb, (prow_cells s S b cases I Hnp He Hex p Hp), Hflat. reflexivity. }
+  assert (Hcm : nthq (nth b cmT []) p = colmean K n i).
+  { rewrite Ecm, table_lookup by (auto; lia). rewrite Hflat. unfold dense_col_means, nthq.
+    rewrite nth_map_seq by lia. reflexivity. }
+  assert (Hdg : nthq (nth b dgT []) p = kent K i i).
+  { rewrite Edg, table_lookup by (auto; lia). rewrite Hflat. unfold dense_diag, nthq.
+    rewrite nth_map_seq by lia. reflexivity. }
+  assert (HnotS : ~ In i S).
+  { intro HiS. unfold unsel in Hu. apply negb_true_iff in Hu.
+    assert (existsb (Nat.eqb i) S = true) by (apply existsb_exists; exists i; split; [exact HiS | apply Nat.eqb_refl]).
+    congruence. }
+  constructor; cbn [g_sel g_mask g_ssk g_selcm g_ssK g_last].
+  - rewrite map_app, (i_sel s S I). cbn [map flat_idx fst snd]. unfold flat_idx. cbn [fst snd]. rewrite Hflat. reflexivity.
+  - intros j Hj. apply in_app_or in Hj. destruct Hj as [Hj|[<-|[]]]; [apply (i_lt s S I); exact Hj | lia].
+  - intros b' Hb'. unfold upd2. destruct (Nat.eq_dec b b') as [<-|Hne].
+    + rewrite nth_upd_same by (rewrite (i_mask_len s S I); exact Hb). rewrite upd_length. apply (i_mask_rows s S I); exact Hb.
+    + rewrite nth_upd_other by exact Hne. apply (i_mask_rows s S I); exact Hb'.
+  - unfold upd2. rewrite upd_length. apply (i_mask_len s S I).
+  - intros b' p' Hp'. rewrite existsb_app. cbn [existsb]. rewrite orb_false_r.
+    destruct (Nat.eq_dec (b' * bs + p') i) as [Ei|Ei].
+    + assert (b' = b /\ p' = p) as [-> ->].
+      { assert (Hpp : p < bs) by lia. rewrite <- Hflat in Ei.
+        assert (E1 : flat_idx bs (b', p') = flat_idx bs (b, p)) by (unfold flat_idx; cbn [fst snd]; exact Ei).
+        apply flat_idx_inj in E1; cbn [snd]; try lia. injection E1 as -> ->. split; reflexivity. }
+      rewrite Ei, Nat.eqb_refl, orb_true_r. apply mask_at_upd2_same.
+      rewrite (i_mask_rows s S I b Hb). lia.
+    + assert (En : (b' * bs + p' =? i) = false) by (apply Nat.eqb_neq; exact Ei). rewrite En, orb_false_r.
+      rewrite mask_at_upd2_other; [apply (i_mask s S I); exact Hp'|].
+      intro Eq. injection Eq as -> ->. apply Ei. exact Hflat.
+  - rewrite (i_selcm s S I), map_app. cbn [map]. f_equal. f_equal. exact Hcm.
+  - rewrite (i_ssK s S I), Hnew. fold (nthq (nth b dgT []) p). rewrite Hdg.
+    apply (extend_submat K n S i Hsym); [lia | apply (i_lt s S I)].
+  - intros _. rewrite last_last. reflexivity.
+  - rewrite L. apply (i_ssk_len s S I).
+  - intros b' Hb'. destruct (nth_error (batches bs n) b') as [cases'|] eqn:En;
+      [|apply nth_error_None in En; unfold nb in Hb'; lia].
+    apply enum_nth in En. rewrite (Hrows b' cases' En). apply (prow_length s S b' cases' I En).
+  - intros b' p' Hb' Hp'. destruct (nth_error (batches bs n) b') as [cases'|] eqn:En;
+      [|apply nth_error_None in En; unfold nb in Hb'; lia].
+    apply enum_nth in En. rewrite (Hrows b' cases' En). apply (prow_cell_length s S b' cases' p' I En Hp').
+  - intros b' cases' He' [i' [Hi1 Hi2]] p' Hp'. rewrite app_length. cbn [length].
+    replace (length S + 1 - 1) with (length S) by lia.
+    rewrite firstn_app, Nat.sub_diag, firstn_all. cbn [firstn]. rewrite app_nil_r.
+    rewrite (Hrows b' cases' He'). apply (prow_cells s S b' cases' I Hnp He'); [|exact Hp'].
+    exists i'. split; [exact Hi1|]. unfold unsel in *. rewrite existsb_app in Hi2.
+    apply negb_true_iff in Hi2. apply orb_false_iff in Hi2. destruct Hi2 as [Hi2 _]. rewrite Hi2. reflexivity.
+Qed.
+End Step.
+
+Lemma nth_repeat_lt {A} (x d : A) m i : i < m -> nth i (repeat x m) d = x.
+Proof. revert i. induction m as [|m IH]; intros i H; [lia|]. destruct i; [reflexivity|]. cbn [repeat nth]. apply IH. lia. Qed.
+
+Lemma inv_init K bs n np : inv K bs n np (init_state bs n np) [].
+Proof.
+  constructor; cbn [init_state g_sel g_mask g_ssk g_selcm g_ssK g_last map length]; try reflexivity.
+  - intros i [].
+  - intros b Hb. rewrite nth_repeat_lt by exact Hb. apply repeat_length.
+  - apply repeat_length.
+  - intros b p Hp. unfold mask_at. cbn [existsb].
+    destruct (Nat.lt_ge_cases b (length (batches bs n))) as [Hb|Hb].
+    + rewrite nth_repeat_lt by exact Hb. apply nth_repeat_lt. exact Hp.
+    + rewrite (nth_overflow (repeat (repeat false bs) (length (batches bs n))) []) by (rewrite repeat_length; exact Hb).
+      destruct p; reflexivity.
+  - apply repeat_length.
+  - intros b Hb. rewrite nth_repeat_lt by exact Hb. apply repeat_length.
+  - intros b p Hb Hp. rewrite nth_repeat_lt by exact Hb. rewrite nth_repeat_lt by exact Hp. apply repeat_length.
+Qed.
+
+Lemma dense_step_length obj K n S : length (dense_step obj K n S) <= length S + 1.
+Proof. unfold dense_step. destruct (first_max _) as [[c v]|]; [rewrite app_length; cbn [length]; lia | lia]. Qed.
+
+(* greedy_batch_invariant: for EVERY batch size, the sequence of dataset positions selected by the batched model
+   (padded tables, triangular column means, per-batch arg-max with strict > across batches, incremental selection
+   kernel) is the dense greedy selection with first-index tie-breaking, for ANY objective that is a function of
+   the candidate's diagonal value, column mean and kernel row to the selection (and of the selection itself) *)
+Theorem greedy_batch_invariant obj updw K n bs np : symmetric K n -> 1 <= bs ->
+  map (flat_idx bs) (g_sel (run_greedy K bs n np obj updw (col_means_table K bs n) (diag_table K bs n)))
+  = dense_select obj K n np.
+Proof.
+  intros Hs Hbs. unfold run_greedy, dense_select.
+  assert (G : forall k, k <= np ->
+            inv K bs n np (Nat.iter k (select_step K bs n obj updw (col_means_table K bs n) (diag_table K bs n)) (init_state bs n np))
+                (Nat.iter k (dense_step obj K n) []) /\ length (Nat.iter k (dense_step obj K n) []) <= k).
+  { induction k as [|k IH]; intro Hk.
+    - split; [apply inv_init | cbn; lia].
+    - destruct IH as [I Hl]; [lia|].
+      change (Nat.iter (S k) ?f ?x) with (f (Nat.iter k f x)). split.
+      + apply select_step_dense; [exact Hbs | exact Hs | exact I | lia].
+      + pose proof (dense_step_length obj K n (Nat.iter k (dense_step obj K n) [])). lia. }
+  destruct (G np (le_n np)) as [I _]. apply (i_sel _ _ _ _ _ _ I).
+Qed.
+
+Theorem prototypes_batch_invariant m eps K bs np : symmetric K (length K) -> 1 <= bs ->
+  map (flat_idx bs) (fst (find_prototypes m eps K bs np)) = dense_select (method_obj eps m) K (length K) np.
+Proof. intros Hs Hbs. unfold find_prototypes. cbn [fst]. apply greedy_batch_invariant; assumption. Qed.
+
+(* hence the selection (as dataset positions) does not depend on the batch size *)
+Theorem selection_batch_independent m eps K bs bs' np : symmetric K (length K) -> 1 <= bs -> 1 <= bs' ->
+  map (flat_idx bs) (fst (find_prototypes m eps K bs np)) = map (flat_idx bs') (fst (find_prototypes m eps K bs' np)).
+Proof. intros Hs H1 H2. rewrite !prototypes_batch_invariant by assumption. reflexivity. Qed.
